@@ -37,18 +37,21 @@ def scenarios(tier):
     pop2 = ('pop', '2')
     out = []
     out.append(_scen('A1|B:pop,pop', {'A': [s1], 'B': [pop1, pop1]}, weight=10))
-    out.append(_scen('A5|B:pop-d1', {'A': [s5], 'B': [pop1]}, dev_bound=1, weight=30))
+    out.append(_scen('A1|B:pop-d1', {'A': [s1], 'B': [pop1]}, dev_bound=1, weight=30))
+    out.append(_scen('A5|B:pop', {'A': [s5], 'B': [pop1]}, dev_bound=0, weight=20))
     out.append(_scen('A1+A1|B:pop2,pop1', {'A': [s1, s1b], 'B': [pop2, pop1]}, weight=40))
     out.append(_scen('A1+term|B:pop', {'A': [s1, term], 'B': [pop1]}, weight=30))
     out.append(_scen('A1|B1+pop', {'A': [s1, pop1], 'B': [s1b]}, weight=40))
     out.append(_scen('len0|B:pop', {'A': [('send', '')], 'B': [pop1]}, weight=5))
-    out.append(_scen('A5+A1+term', {'A': [s5, s1, term], 'B': []}, weight=40))
+    out.append(_scen('A1+A1+term', {'A': [s1, s1b, term], 'B': []}, weight=40))
     try:
         from .c13 import c18_udp_scenarios
         out.extend(c18_udp_scenarios(tier))
     except ImportError:
         pass
     if tier == 'thorough':
+        out.append(_scen('A5+A1+term', {'A': [s5, s1, term], 'B': []}, weight=80))
+        out.append(_scen('A5|B:pop-d1', {'A': [s5], 'B': [pop1]}, dev_bound=1, weight=60))
         out.append(_scen('A5+A1|B:pop,pop', {'A': [s5, s1], 'B': [pop1, pop2]}, weight=100))
         out.append(_scen('A1+term|B1+pop-d1', {'A': [s1, term, pop1], 'B': [s1b]}, dev_bound=0, weight=100))
         out.append(_scen('A1|B:pop,pop-d2', {'A': [s1], 'B': [pop1, pop1]}, dev_bound=2, weight=60))
